@@ -2017,6 +2017,8 @@ def _make_stride(shape, cstyle=True):
     L = len(shape)
     stride = 1
     res = np.empty([L], np.intp)
+    if L == 0:
+        return res  # no axis: nothing to write (``res[L - 1]`` / ``res[0]`` do not exist)
     if cstyle:
         res[L - 1] = 1
         for a in range(L - 1, 0, -1):
